@@ -1147,6 +1147,7 @@ impl ElementRaw {
             }
         }
         self.content.clear();
+        self.file_membership.clear();
         self.parent = ElementOrModel::None;
     }
 
